@@ -2,7 +2,7 @@
 import re
 
 from facts import walk, render, role, is_call, null_test, AnalysisBroken
-from engines import ff, nth_arg, receiver, path, is_this_like, unwrap_defarg
+from engines import render_x, rendered_conds_x, ff, nth_arg, receiver, path, is_this_like, unwrap_defarg
 import exc
 import recursion
 from nullflow import nonnull_at
@@ -268,13 +268,13 @@ def run(F, rep):
     inner = [c for c in am.walk() if c.get('k') == 'Call' and c.get('fn') == 'analyseModel' and c.get('cls', '').endswith('AnalyserImpl')]
     if len(inner) != 1:
         raise AnalysisBroken('Analyser::analyseModel: inner call not found')
-    rc = ff(am).rendered_conds_at(inner[0]) or set()
+    rc = rendered_conds_x(am, inner[0]) or set()
     val = [c for c in am.walk() if c.get('k') == 'Call' and c.get('fn') == 'validateModel']
     copy = [c for c in am.walk() if c.get('k') == 'Call' and c.get('fn') == 'addIssue' and 'validator->issue(' in render(c)]
     okc = False
     for c in copy:
         loops = [a for a in am.ancestors(c) if a.get('k') == 'For']
-        okc = okc or (bool(loops) and 'validator->issueCount()' in render(role(loops[0], 'cond')))
+        okc = okc or (bool(loops) and 'validator->issueCount()' in render_x(am, role(loops[0], 'cond')))
     rep.check(('issueCount() == 0', True) in rc, 'C01.G1', 'analyse-only-without-issues', am.where(inner[0]), 'the analysis proper is not guarded by issueCount() == 0 (facts: %s)' % sorted(rc), 'guarded by issueCount() == 0')
     rep.check(bool(val) and am.cfg().node_dominates(val[0], inner[0]) and render(nth_arg(val[0], 0)) == render(nth_arg(inner[0], 0)), 'C01.G1', 'validated-first', am.where(), 'validateModel(model) does not dominate the analysis of the same model', 'validator runs first on the same model')
     rep.check(okc, 'C01.G1', 'validator-issues-copied', am.where(), 'validator issues are not all copied into the analyser (loop over validator->issueCount())', 'all validator issues copied before the issueCount() test')
@@ -488,7 +488,7 @@ def run(F, rep):
             rep.check(bool(counts & {'hasTwoMathmlSiblings', 'hasAtLeastTwoMathmlSiblings'}), 'C01.A1', key + '|two operands', vd.where(th), '%s is emitted as a two-argument function/operator but the validator guarantees only %s' % (els, sorted(counts)), 'at least two operands')
     if n_a < 20 or not {'min', 'max', 'rem', 'plus', 'piece', 'bvar'} <= seen_els:
         raise AnalysisBroken('C01.A1: only %d element branches found (25 confirmed)' % n_a)
-    _rec.rule_progress(F, rep, 'C01.R2', lambda g: '/src/' in g.file, 100, 'the library')
-    _rec.rule_stack_discipline(F, rep, 'C01.S1', lambda g: '/src/' in g.file, 15, 'the library')
+    _rec.rule_progress(F, rep, 'C01.R2', lambda g: '/src/' in g.file, 60, 'the library')
+    _rec.rule_stack_discipline(F, rep, 'C01.S1', lambda g: '/src/' in g.file, 8, 'the library')
 
 
